@@ -187,7 +187,8 @@ fn subset_simple_glyph(g: &SimpleGlyph, plan: &Plan) -> Vec<u8> {
     let Some(num_coords) = g.end_pts_of_contours().last() else {
         return out;
     };
-    let num_coords = num_coords.get() + 1;
+    // up to 65536 points: do not add in u16
+    let num_coords = num_coords.get() as u32 + 1;
     let glyph_data = g.glyph_data();
     let i = trim_simple_glyph_padding(glyph_data, num_coords);
     if i == 0 {
@@ -314,7 +315,7 @@ fn subset_composite_glyph(g: &CompositeGlyph, plan: &Plan) -> Vec<u8> {
 }
 
 // trim padding bytes for simple glyphs, return trimmed length of the raw data for flags & x/y coordinates
-fn trim_simple_glyph_padding(glyph_data: &[u8], num_coords: u16) -> usize {
+fn trim_simple_glyph_padding(glyph_data: &[u8], num_coords: u32) -> usize {
     let mut coord_bytes: usize = 0;
     let mut coords_with_flags: u32 = 0;
     let length = glyph_data.len();
@@ -348,12 +349,12 @@ fn trim_simple_glyph_padding(glyph_data: &[u8], num_coords: u16) -> usize {
 
         coord_bytes += (x_bytes + y_bytes) * repeat;
         coords_with_flags += repeat as u32;
-        if coords_with_flags >= num_coords as u32 {
+        if coords_with_flags >= num_coords {
             break;
         }
     }
 
-    if num_coords as u32 != coords_with_flags {
+    if num_coords != coords_with_flags {
         return 0;
     }
     i += coord_bytes;
@@ -375,7 +376,7 @@ pub(crate) mod verif {
         super::subset_glyph(glyph, plan)
     }
     pub(crate) fn trim_simple_glyph_padding(glyph_data: &[u8], num_coords: u16) -> usize {
-        super::trim_simple_glyph_padding(glyph_data, num_coords)
+        super::trim_simple_glyph_padding(glyph_data, num_coords as u32)
     }
     pub(crate) fn padded_size(len: usize) -> usize {
         super::padded_size(len)
